@@ -52,6 +52,13 @@ def make_data(job):
         y = 1e6 * y
     if job.get('perturb'):
         y = y * (1 + np.random.default_rng(job['seed'] + 991).choice([-1.0, 1.0], n) * job['perturb'])
+    # x-axes of unusual magnitude (the same data on a re-labelled axis): metres instead of nanometres, epoch seconds, a huge scale
+    if kind == 'xsmall':
+        x = x * 2.0 ** -30
+    elif kind == 'xhuge':
+        x = x * 2.0 ** 30
+    elif kind == 'xoffset':
+        x = x + 1.7e9
     return x, None, y
 
 
